@@ -374,6 +374,7 @@ func checkC19(w *World, r *Report) {
 	checkOptionalDefaults(w, r)
 	checkSortComparators(w, r)
 	checkMeasureByShape(w, r)
+	checkNoBoxedNumberComparisons(w, r)
 	// R19.3: the emptiness routine behind `default` (and the empty test)
 	nz := checkZeroTests(w, r, "R19.3", func(f *types.Func) bool { return f.Name() == "isEmptyValue" }, "treated as non-empty: `default` does not replace it although it replaces int 0")
 	r.Counts["zero tests in the emptiness routine"] = nz
@@ -774,4 +775,53 @@ func checkMeasureByShape(w *World, r *Report) {
 	}
 	r.ok("R19.5", "(sibling implementations)", "values are classified by type and kind only", "-", fmt.Sprintf("%d type assertions on the data value examined", n), true)
 	r.floor("type assertions on the data value in sibling implementations", n, 5)
+}
+
+// checkNoBoxedNumberComparisons — R19.6: a template value is never compared, as an interface, with
+// a boxed numeric constant.  Numbers reach filters as int, int64, float64 (literals, arithmetic,
+// context data, decoded JSON): `v == 0` with v of type interface{} is true for int(0) only, so a
+// filter that settles "is it zero / empty" that way treats 0.0 and int64(0) as non-empty.  (In a
+// type switch clause listing several types the variable keeps the interface type: this is where
+// the comparison usually comes from.)
+func checkNoBoxedNumberComparisons(w *World, r *Report) {
+	n := 0
+	for _, fn := range w.pkgFuncs() {
+		instrsOf(fn, func(in ssa.Instruction) {
+			bo, ok := in.(*ssa.BinOp)
+			if !ok || (bo.Op != token.EQL && bo.Op != token.NEQ) {
+				return
+			}
+			boxedNum := func(v ssa.Value) (string, bool) {
+				mi, ok := v.(*ssa.MakeInterface)
+				if !ok {
+					return "", false
+				}
+				c, ok := mi.X.(*ssa.Const)
+				if !ok || c.Value == nil {
+					return "", false
+				}
+				if b, ok := c.Type().Underlying().(*types.Basic); ok && b.Info()&types.IsNumeric != 0 {
+					return c.Value.ExactString() + " (" + b.Name() + ")", true
+				}
+				return "", false
+			}
+			var other ssa.Value
+			what, ok := boxedNum(bo.Y)
+			other = bo.X
+			if !ok {
+				what, ok = boxedNum(bo.X)
+				other = bo.Y
+			}
+			if !ok {
+				return
+			}
+			it, isIface := other.Type().Underlying().(*types.Interface)
+			if !isIface || it.NumMethods() != 0 {
+				return
+			}
+			n++
+			r.bad("R19.6", ssaName(fn), "interface value compared with boxed "+what, w.posOf(bo.Pos()), "the comparison is true for one Go type of number only: the same number arriving as float64 or int64 (a float literal, the result of arithmetic, decoded JSON) takes the other branch, so the filter's answer depends on how the number is represented")
+		})
+	}
+	r.Counts["comparisons of interface values with boxed numeric constants"] = n
 }
